@@ -113,6 +113,7 @@ class State:
         self.pc: list = []
         self.heap: dict = {}
         self.lists = z3.Const("lists0", z3.ArraySort(z3.IntSort(), V.ValSeq))
+        self.sets = z3.Const("sets0", z3.ArraySort(z3.IntSort(), z3.ArraySort(V.Val, z3.BoolSort())))  # mutable set()s
         self.frames: dict[int, Frame] = {}
         self.globals: dict = {}
         self.ghost: dict = {}
@@ -128,6 +129,7 @@ class State:
         s.pc = list(self.pc)
         s.heap = dict(self.heap)
         s.lists = self.lists
+        s.sets = self.sets
         s.frames = {k: f.copy() for k, f in self.frames.items()}
         s.globals = dict(self.globals)
         s.ghost = dict(self.ghost)
@@ -142,6 +144,9 @@ class State:
     def assume(self, *facts):
         for f in facts:
             if f is True or (z3.is_expr(f) and z3.is_true(f)):
+                continue
+            if z3.is_expr(f) and z3.is_and(f):
+                self.assume(*f.children())  # conjuncts separately: ground ones stay usable for pruning
                 continue
             self.pc.append(f)
 
@@ -233,6 +238,7 @@ class Engine:
         self.with_hook = None
         self.shared_fields: dict = {}  # field -> spec (monitor-owned)
         self.stats = {"paths": 0, "feas_checks": 0}
+        self.ignored_calls: set = set()  # ids of callables whose calls (and argument evaluation) are skipped
         from . import models
 
         models.install(self)
@@ -258,13 +264,18 @@ class Engine:
         return ax
 
     # ------------------------------------------------------------------ solver helpers
+    def ground_pc(self, st: State):
+        """Path condition without quantified facts.  Used only to *prune* paths / enumerate cases:
+        dropping hypotheses can only keep more paths alive, never lose one."""
+        return [p for p in st.pc if not _has_quant(p)]
+
     def check(self, st: State, extra=()):
         self.stats["feas_checks"] += 1
         s = z3.Solver()
         s.set("timeout", self.check_timeout_ms)
         for a in self.class_axioms():
             s.add(a)
-        for p in st.pc:
+        for p in self.ground_pc(st):
             s.add(p)
         for e in extra:
             s.add(e)
@@ -277,7 +288,7 @@ class Engine:
         s.set("timeout", self.check_timeout_ms)
         for a in self.class_axioms():
             s.add(a)
-        for p in st.pc:
+        for p in self.ground_pc(st):
             s.add(p)
         out = []
         while True:
@@ -770,29 +781,42 @@ class Engine:
         if v.hint is not None:
             yield st, v.hint
             return
-        for tag, pycls in tag_class_pairs():
-            cond = V.tag_test(tag, v.t)
+        # model enumeration over (tag, class id)
+        sol = z3.Solver()
+        sol.set("timeout", self.check_timeout_ms)
+        for a_ in self.class_axioms():
+            sol.add(a_)
+        for p_ in self.ground_pc(st):
+            sol.add(p_)
+        tagmap = dict(tag_class_pairs())
+        cases = []
+        while True:
+            self.stats["feas_checks"] += 1
+            r = sol.check()
+            if r == z3.unsat:
+                break
+            if r != z3.sat:
+                raise Unsupported(f"cannot enumerate the classes of {v} (solver: {r})")
+            mdl = sol.model()
+            tag = mdl.eval(v.t, model_completion=True).decl().name()
+            if tag != "ref":
+                cases.append((V.tag_test(tag, v.t), tagmap[tag]))
+                sol.add(z3.Not(V.tag_test(tag, v.t)))
+                continue
+            cid = mdl.eval(V.cls_of(V.Val.a(v.t)), model_completion=True).as_long()
+            if cid not in self.class_by_id:
+                raise Unsupported(f"class of symbolic object {v} is unconstrained")
+            cond = z3.And(V.is_ref(v.t), V.cls_of(V.Val.a(v.t)) == cid)
+            cases.append((cond, self.class_by_id[cid]))
+            sol.add(z3.Not(cond))
+        if len(cases) == 1:
+            st.assume(cases[0][0])
+            yield st, cases[0][1]
+            return
+        for cond, pycls in cases:
             st2 = st.copy()
             st2.assume(cond)
-            if self.feasible(st2):
-                yield st2, pycls
-        st2 = st.copy()
-        st2.assume(V.is_ref(v.t))
-        if self.feasible(st2):
-            # which registered class?
-            found = False
-            for pycls, cid in list(self.class_ids.items()):
-                st3 = st2.copy()
-                st3.assume(V.cls_of(V.Val.a(v.t)) == cid)
-                if self.feasible(st3):
-                    found = True
-                    yield st3, pycls
-            st4 = st2.copy()
-            st4.assume(*[V.cls_of(V.Val.a(v.t)) != cid for cid in self.class_ids.values()])
-            if self.feasible(st4):
-                raise Unsupported(f"class of symbolic object {v} is unconstrained")
-            if not found:
-                return
+            yield st2, pycls
 
     def instantiate(self, pycls, args, kwargs, st: State, line):
         if isinstance(pycls, type) and issubclass(pycls, BaseException):
@@ -864,7 +888,7 @@ class Engine:
         if st.depth > self.max_depth:
             raise Unsupported(f"call depth exceeded at {key}")
         node = cl.node
-        if any(isinstance(n, (ast.Yield, ast.YieldFrom)) for n in self._own_nodes(node)):
+        if self.yield_hook is None and any(isinstance(n, (ast.Yield, ast.YieldFrom)) for n in self._own_nodes(node)):
             body = [s for s in node.body if not (isinstance(s, ast.Expr) and isinstance(s.value, ast.Constant))]
             if len(body) == 1 and isinstance(body[0], ast.Expr) and isinstance(body[0].value, ast.YieldFrom):
                 # a generator that only delegates: iterating it is iterating the delegate
@@ -1695,6 +1719,11 @@ class Engine:
             if isinstance(f, Raise):
                 yield st1, f
                 continue
+            if id(getattr(f, "__func__", f)) in self.ignored_calls or id(f) in self.ignored_calls:
+                # e.g. logger.debug(...): neither the call nor the evaluation of its (string-formatting)
+                # arguments is modelled; the pack lists this as an assumption
+                yield st1, None
+                continue
             for st2, args in self.eval_list(node.args, st1, fr):
                 if isinstance(args, Raise):
                     yield st2, args
@@ -1752,6 +1781,13 @@ class Engine:
 
         yield from loops.comprehension(self, node, st, fr, "dict")
 
+    yield_hook = None  # generator-based context managers: callable(engine, node, st, fr) -> generator
+
+    def e_Yield(self, node, st, fr):
+        if self.yield_hook is None:
+            raise Unsupported("yield outside a modelled context manager")
+        yield from self.yield_hook(self, node, st, fr)
+
     def e_Starred(self, node, st, fr):
         raise Unsupported("starred expression outside call/list")
 
@@ -1783,6 +1819,25 @@ def _as_load(target):
     t = copy.copy(target)
     t.ctx = ast.Load()
     return t
+
+
+_quant_cache: dict = {}
+
+
+def _has_quant(f, depth=6):
+    if not z3.is_expr(f):
+        return False
+    k = f.get_id()
+    if k in _quant_cache:
+        return _quant_cache[k]
+    if z3.is_quantifier(f):
+        r = True
+    elif depth == 0 or not z3.is_app(f):
+        r = False
+    else:
+        r = any(_has_quant(c, depth - 1) for c in f.children())
+    _quant_cache[k] = r
+    return r
 
 
 def lib_to_iter(eng, st, v):
